@@ -7,7 +7,8 @@ from dataclasses import dataclass, field
 from typing import Any, Dict, List, Optional, Tuple
 
 from harness.simdevice import CliDevice
-from harness.simtransport import CutList, SimStall, make_conn
+import random
+from harness.simtransport import CutAt, CutList, SimStall, make_conn
 from rx2lean import RxUnsupported, rx
 from vlib.common import hexl, hexs
 
@@ -25,6 +26,24 @@ class ScenDevice(CliDevice):
 
     def connect(self) -> bytes:
         return super().connect() if self.initial_prompt else self.banner
+
+    junk = None
+
+    def on_write(self, data: bytes) -> bytes:
+        if self.junk is None:
+            return super().on_write(data)
+        out = bytearray()
+        for b in data:
+            if b == 0x0A:
+                out += self._execute(bytes(self.linebuf))
+                self.linebuf.clear()
+            elif b == 0x0D:
+                continue
+            else:
+                self.linebuf.append(b)
+                if self.echo and self.pending is None:
+                    out += self.junk.echo(b)
+        return bytes(out)
 
     def _execute(self, raw: bytes) -> bytes:
         line = raw.decode("utf-8", "replace")
@@ -64,11 +83,13 @@ class Scenario:
     # ops: ("get_prompt",) | ("send_command", cmd, strip_prompt, eager_input) | ("send_commands", [cmds], strip)
     #      | ("send_interactive", [(input, expect, hidden)], complete_patterns or None)
     initial_prompt: bool = False  # device prints its prompt at connect (as after a library-transport login); default: session starts in step
-    decorate: Any = None          # optional callable(bytes)->bytes applied to every device output (CR / ANSI insertion)
+    decor: Optional[dict] = None  # {"kind": "cr"|"ansi"|"ansi+cr", "seed": n, "p": density} applied to every device output
+    echo_junk: Optional[dict] = None   # rough mode: {"seed": n} extra bytes the device interleaves with the echoed input
+    cut_at: Optional[List[int]] = None  # cut the global output stream exactly at these absolute offsets (overrides cuts)
     banner: bytes = b""
 
     def describe(self):
-        d = {k: getattr(self, k) for k in ("platform", "stack", "hostname", "user", "ret", "rough", "depth", "cuts", "ops", "outputs", "questions", "trailing", "initial_prompt")}
+        d = {k: getattr(self, k) for k in ("platform", "stack", "hostname", "user", "ret", "rough", "depth", "cuts", "ops", "outputs", "questions", "trailing", "initial_prompt", "decor", "echo_junk", "cut_at")}
         d["nl"] = self.nl.decode("latin1")
         d["cuts"] = cuts_wire(self.cuts)
         d["banner"] = self.banner.decode("latin1")
@@ -100,6 +121,53 @@ class RunResult:
     stalled: bool = False
     error: Optional[str] = None
     prompt_pattern: str = ""
+    decorator: Any = None
+
+
+SEQS = [b"\x1b[0m", b"\x1b[1;31m", b"\x1b[K", b"\x1b[2J", b"\x1b[?25h", b"\x1b7", b"\x1b8", b"\x1bM", b"\x1bE", b"\x1b]0;r1 title\x07", b"\x1b[1C",
+        b"\x1b[38;5;196m", b"\x1b]2;x\x07"]
+
+
+class Decorator:
+    """inserts CRs and/or complete escape sequences at character boundaries of device output; remembers the spans
+    (absolute offsets in the global output stream) that a read boundary must not fall strictly inside"""
+
+    def __init__(self, spec):
+        self.spec = spec
+        self.rng = random.Random(spec.get("seed", 0))
+        self.offset = 0
+        self.spans = []     # (start, end) absolute offsets of inserted escape sequences
+
+    def __call__(self, data: bytes) -> bytes:
+        kind, p = self.spec["kind"], self.spec.get("p", 0.15)
+        out = bytearray()
+        for i in range(len(data) + 1):
+            if data and self.rng.random() < p:
+                if "ansi" in kind and ("cr" not in kind or self.rng.random() < 0.6):
+                    s = self.rng.choice(SEQS)
+                    self.spans.append((self.offset + len(out), self.offset + len(out) + len(s)))
+                    out += s
+                elif "cr" in kind:
+                    out += b"\r" * self.rng.choice([1, 1, 2])
+            if i < len(data):
+                out.append(data[i])
+        self.offset += len(out)
+        return bytes(out)
+
+    def inside_span(self, off):
+        return any(a < off < b for a, b in self.spans)
+
+
+class _JunkEcho:
+    """rough-mode device echo: extra bytes BEFORE each echoed byte (never after the last one)"""
+
+    def __init__(self, spec):
+        self.rng = random.Random(spec.get("seed", 0))
+        self.alphabet = spec.get("alphabet", "\x08 ~^")
+
+    def echo(self, b: int) -> bytes:
+        n = self.rng.choice([0, 0, 1, 2])
+        return "".join(self.rng.choice(self.alphabet) for _ in range(n)).encode() + bytes([b])
 
 
 class _Recorder:
@@ -162,9 +230,14 @@ def run_real(sc: Scenario) -> RunResult:
                      banner=sc.banner)
     dev.initial_prompt = sc.initial_prompt
     res.device = dev
-    wired = _Recorder(dev, sc.decorate)
+    decorator = Decorator(sc.decor) if sc.decor else None
+    if sc.echo_junk:
+        dev.junk = _JunkEcho(sc.echo_junk)
+    wired = _Recorder(dev, decorator)
+    res.decorator = decorator
     kw = dict(comms_return_char=sc.ret, comms_roughly_match_inputs=sc.rough)
-    conn, t = make_conn(sc.platform, wired, stack=sc.stack, cuts=CutList(sc.cuts), **kw)
+    cuts = CutAt(sc.cut_at) if sc.cut_at is not None else CutList(sc.cuts)
+    conn, t = make_conn(sc.platform, wired, stack=sc.stack, cuts=cuts, **kw)
     if sc.depth is not None:
         conn.comms_prompt_search_depth = sc.depth
     res.conn = conn
@@ -281,9 +354,10 @@ def model_request(sc: Scenario, res: RunResult) -> Optional[str]:
     if not ops:
         return None
     init = res.init_avail
+    cuts_used = [len(x) for x in res.reads]       # the sizes the real reads had: the same segmentation for the model
     tbl = ",".join(f"{hexs(k)}={v}" for k, v in table.items()) or "."
     depth = res.conn.channel._base_channel_args.comms_prompt_search_depth
-    return (f"scen {prx} {depth} {hexs(sc.ret.encode())} {'1' if sc.rough else '0'} {cuts_wire(sc.cuts)} {hexs(init)} "
+    return (f"scen {prx} {depth} {hexs(sc.ret.encode())} {'1' if sc.rough else '0'} {cuts_wire(cuts_used + [1000000])} {hexs(init)} "
             f"{hexl(res.dev_outputs)} {tbl} {';'.join(ops)}")
 
 
